@@ -220,8 +220,46 @@ def async_assembly(ctx, repo):
     ctx.ob("R5", f"{key}::inner-loop-exits", inner is not None and inner is not outer, f"{fi.qual}: segment loop missing", fi.loc)
 
 
+def _resets(repo, g, path, kind):
+    """nodes that re-initialise `path` (e.g. 'self._segments' or 'self._collector.segments'):
+    a direct assignment of [] / 0, or an assignment of a freshly constructed record to a prefix of
+    the path whose class gives the remaining field that default (dataclass field default / default_factory=list,
+    or an __init__ assigning it)"""
+    from ..pathrules import assigns_attr as _aa
+    out = []
+    for n in g.stmt_nodes():
+        a = n.ast
+        if not isinstance(a, (ast.Assign, ast.AnnAssign)) or getattr(a, "value", None) is None:
+            continue
+        if _aa(n, path):
+            v = a.value
+            if kind == "list" and isinstance(v, ast.List) and not v.elts:
+                out.append(n)
+            elif kind == "zero" and repo.try_fold(v, default=None) == 0:
+                out.append(n)
+            continue
+        parts = path.split(".")
+        for cut in range(len(parts) - 1, 1, -1):
+            prefix, rest = ".".join(parts[:cut]), parts[cut:]
+            if len(rest) != 1 or not _aa(n, prefix):
+                continue
+            v = a.value
+            if isinstance(v, ast.Call) and isinstance(v.func, ast.Name) and not v.args and not v.keywords:
+                c = repo.cls(v.func.id, required=False)
+                if c is None:
+                    continue
+                d = c.consts.get(rest[0])
+                if d is not None:
+                    if kind == "zero" and repo.try_fold(d, default=None) == 0:
+                        out.append(n)
+                    if kind == "list" and ((isinstance(d, ast.List) and not d.elts) or
+                                           (isinstance(d, ast.Call) and ast.unparse(d.func).endswith("field") and any(k.arg == "default_factory" and ast.unparse(k.value) == "list" for k in d.keywords))):
+                        out.append(n)
+    return out
+
+
 def sync_assembly(ctx, repo):
-    fi = repo.own_method("GeckoStructure", "_on_status_block_received")
+    fi = repo.method("GeckoStructure", "_on_status_block_received")
     g = cfg_of(fi)
     key = fi.qual
     h = fi.node.args.args[1].arg  # the handler parameter
@@ -232,11 +270,11 @@ def sync_assembly(ctx, repo):
     if len(appends) != 1:
         return
     A, ac = appends[0]
-    acc = receiver(ac)
+    acc = ast.unparse(g.expand(ac.func.value, at=A))  # accumulator, local aliases of the holder expanded
     exp = None
     for n in g.stmt_nodes():
         if n.kind == "test":
-            for sub in ast.walk(n.ast):
+            for sub in ast.walk(g.expand(n.ast, at=n)):
                 if isinstance(sub, ast.Compare) and len(sub.ops) == 1 and isinstance(sub.ops[0], (ast.Eq, ast.NotEq)):
                     l, rr = ast.unparse(sub.left), ast.unparse(sub.comparators[0])
                     if rr == f"{h}.sequence" and l.startswith("self."):
@@ -258,12 +296,12 @@ def sync_assembly(ctx, repo):
                f"{fi.qual}: block installed (L{I.lineno}) before the final segment", loc(fi, I.ast))
         a0 = ast.unparse(ic.args[0]) if ic.args else ""
         # offset attribute must be the one retry_request sets from request.start
-        rr = repo.own_method("GeckoStructure", "retry_request")
+        rr = repo.method("GeckoStructure", "retry_request")
         req_param = rr.node.args.args[2].arg
         sets = [n for n in ast.walk(rr.node) if isinstance(n, ast.Assign) and ast.unparse(n.targets[0]) == a0 and ast.unparse(n.value) == f"{req_param}.start"]
         ctx.ob("R3", f"{key}::install::offset", bool(sets), f"{fi.qual}: installs at `{a0}`, which retry_request does not set from {req_param}.start", loc(fi, I.ast))
         a1 = ic.args[1] if len(ic.args) > 1 else None
-        okd = isinstance(a1, ast.Call) and call_name(a1) == "join" and a1.args and ast.unparse(a1.args[0]) == acc and repo.try_fold(a1.func.value) == b""
+        okd = isinstance(a1, ast.Call) and call_name(a1) == "join" and a1.args and ast.unparse(g.expand(a1.args[0], at=I)) == acc and repo.try_fold(a1.func.value) == b""
         ctx.ob("R3", f"{key}::install::data", okd, f"{fi.qual}: installed data is not the concatenation of {acc}", loc(fi, I.ast))
         ctx.ob("R1", f"{key}::install::after-append", g.dom(A, I), f"{fi.qual}: install not preceded by the append", loc(fi, I.ast))
         rm = [n for n in g.stmt_nodes() if isinstance(n.ast, ast.Assign) and ast.unparse(n.ast.targets[0]) == f"{h}._should_remove_handler" and repo.try_fold(n.ast.value) is True]
@@ -277,8 +315,8 @@ def sync_assembly(ctx, repo):
     retries = calls_named(g, "retry")
     ctx.floor("R4", f"{key} resend sites", len(retries), 1)
     for R, rc in retries:
-        ra = [n for n in g.stmt_nodes() if assigns_attr(n, acc) and isinstance(n.ast.value, ast.List) and not n.ast.value.elts]
-        re_ = [n for n in g.stmt_nodes() if assigns_attr(n, exp) and repo.try_fold(n.ast.value, default=None) == 0]
+        ra = _resets(repo, g, acc, "list")
+        re_ = _resets(repo, g, exp, "zero")
         ctx.ob("R4", f"{key}::resend::accumulator-reset", any(g.dom(n, R) for n in ra), f"{fi.qual}: resend (L{R.lineno}) without clearing {acc}", loc(fi, R.ast))
         ctx.ob("R4", f"{key}::resend::expected-index-reset", any(g.dom(n, R) for n in re_), f"{fi.qual}: resend (L{R.lineno}) without resetting {exp}", loc(fi, R.ast))
         facts = g.guard_atoms(R)
@@ -295,13 +333,13 @@ def sync_assembly(ctx, repo):
                     ok = True
         ctx.ob("R5", f"{key}::refused-retry-raises", ok, f"{fi.qual}: an exhausted retry budget is not reported (retry() returning False must raise)", loc(fi, R.ast))
     # retry_request
-    rr = repo.own_method("GeckoStructure", "retry_request")
+    rr = repo.method("GeckoStructure", "retry_request")
     gr = cfg_of(rr)
     sends = calls_named(gr, "queue_send")
     ctx.floor("R4", f"{rr.qual} send sites", len(sends), 1)
     for S, sc in sends:
-        ra = [n for n in gr.stmt_nodes() if assigns_attr(n, acc) and isinstance(n.ast.value, ast.List) and not n.ast.value.elts]
-        re_ = [n for n in gr.stmt_nodes() if assigns_attr(n, exp) and repo.try_fold(n.ast.value, default=None) == 0]
+        ra = _resets(repo, gr, acc, "list")
+        re_ = _resets(repo, gr, exp, "zero")
         ctx.ob("R4", f"{rr.qual}::send::accumulator-reset", any(gr.dom(n, S) for n in ra), f"{rr.qual}: request sent without clearing {acc}", loc(rr, S.ast))
         ctx.ob("R4", f"{rr.qual}::send::expected-index-reset", any(gr.dom(n, S) for n in re_), f"{rr.qual}: request sent without resetting {exp}", loc(rr, S.ast))
         reg = calls_named(gr, "add_receive_handler")
